@@ -229,6 +229,11 @@ def run_impl(case):
             start = p.current
             n = dns.name.from_wire_parser(p)
             return [labels_of(n), p.current - start, list(tr)]
+        if op == 25:
+            # Name.to_wire with a file but no compression table
+            f = io.BytesIO()
+            N(case[1]).to_wire(f, None, oname(case[2]), bool(case[3]))
+            return f.getvalue()
         if op == 24:
             p = dns.wire.Parser(bytes(case[1]), case[2])
             start = p.current
